@@ -31,6 +31,17 @@ CHECKS = {
             "Operand bytes beyond the second are covered by fills (C02 sweeps every position); callbacks run against "
             "binja_test_mocks as the repository's own tests do.",
             "DESIGN.md section 4, C01"),
+    "C06": ("exploration",
+            "exhaustive differential enumeration: every structural encoding x a state palette executed once on the "
+            "Python Emulator and once on the Rust LlamaExecutor from identical state, plus all ordered pairs/triples of an "
+            "instruction palette and loop skeletons in lockstep",
+            "The structural encoding space (16 prefixes x 256 opcodes x every selector byte) is enumerated completely and "
+            "crossed with 2 (quick) / 8 (thorough) architectural states chosen so every addressing mode lands on a "
+            "different address; all observables the statement lists are compared after every instruction.",
+            "Register/memory values come from palettes and a hash fill, not all values; both cores run on the same flat "
+            "24-bit byte map (device windows are C11/C12); I is kept in 1..3; 17 divergence classes are recorded as known "
+            "findings with signatures naming opcode and prefix class.",
+            "DESIGN.md section 4, C06"),
     "C08": ("model_checking",
             "explicit-state BFS over register write histories on the real Python Registers and Rust LlamaState "
             "(closure per alias group, all sequences up to depth 2/3 over the full alphabet) against a reference register file",
